@@ -69,6 +69,7 @@ SEEDED = [
     ("C13-5", "C13-KEY"),
     ("C13-7", "C13-DIM"),
     ("C13-8", "C13-TRIM"),
+    ("C13-9", "C13-GRID"),
     ("C13-11", "C13-ROWS"),
 ]
 MUTANTS = list(MUTANTS) + [_P("seed-" + sid, _os.path.join(_SEEDS, sid, "patch.diff"), rule) for sid, rule in SEEDED if _os.path.exists(_os.path.join(_SEEDS, sid, "patch.diff"))]
